@@ -9,6 +9,7 @@ import (
 	"strconv"
 	"sync"
 	"testing/synctest"
+	"time"
 
 	"golang.org/x/net/http2"
 	"google.golang.org/grpc"
@@ -81,9 +82,15 @@ func (rn *runner) feedServer() {
 			}
 		case http2.FrameRSTStream:
 			if w != nil {
-				if w.endStream > 0 && e.Code == http2.ErrCodeNo && !w.rstIn {
+				deadline := w.idx < len(rn.sc.DeadlineRace) && rn.sc.DeadlineRace[w.idx] > 0
+				switch {
+				case w.endStream > 0 && !w.rstIn && e.Code == http2.ErrCodeNo:
 					w.rstAfterTrailers++ // RFC 9113 §8.1: legitimate after a complete response
-				} else if w.endStream > 0 {
+				case w.endStream > 0 && deadline:
+					// the stream's deadline timer fired as the handler returned: closeStream queues a
+					// cleanupStream with rst=true although finishStream already ended the stream
+					rn.viol("C02", "rst-after-trailers:deadline-fires-as-handler-returns", "RST_STREAM(%v) on stream %d after its trailers (and %d earlier RST): %s", e.Code, e.Stream, w.rstAfterTrailers, e.String())
+				case w.endStream > 0:
 					rn.viol("C02", "rst-after-trailers", "RST_STREAM(%v) after trailers on stream %d (second or non-NO_ERROR): %s", e.Code, e.Stream, e.String())
 				}
 				w.rstIn = true
@@ -164,6 +171,11 @@ func runServerSend(sc scenario) *outcome {
 			ss.SetHeader(metadata.Pairs("x-big", string(bytes.Repeat([]byte{'h'}, sc.BigHdr[s]))))
 		}
 		a := rn.rec.st[s]
+		if s < len(sc.DeadlineRace) && sc.DeadlineRace[s] > 0 {
+			// first write at exactly the instant the stream's own deadline timer
+			// fires: the server's RST_STREAM races with the response headers
+			time.Sleep(time.Duration(sc.DeadlineRace[s]) * time.Millisecond)
+		}
 		for i := range a.msgs {
 			rn.rec.with(s, func(a *appStream) { a.attempted = i + 1 })
 			if err := ss.SendMsg(a.msgs[i][5:]); err != nil {
@@ -190,15 +202,26 @@ func runServerSend(sc scenario) *outcome {
 		return out
 	}
 	synctest.Wait()
+	races := 0
 	for s := range sc.Msgs {
 		id := uint32(1 + 2*s)
 		w := &wireStream{id: id, idx: s}
 		rn.ws[id] = w
 		rn.byIdx[s] = w
 		// half of the calls half-close at once, the others leave the request side open
-		peer.WriteHeaders(id, s%2 == 0, 0, wire.RequestHeaders("/verif.Flow/Recv", wire.F("x-sid", strconv.Itoa(s)))...)
+		hdrs := wire.RequestHeaders("/verif.Flow/Recv", wire.F("x-sid", strconv.Itoa(s)))
+		if s < len(sc.DeadlineRace) && sc.DeadlineRace[s] > 0 {
+			hdrs = append(hdrs, wire.F("grpc-timeout", strconv.Itoa(sc.DeadlineRace[s])+"m"))
+			races++
+		}
+		peer.WriteHeaders(id, s%2 == 0, 0, hdrs...)
 	}
 	rn.quiesceServer("start")
+	if races > 0 {
+		time.Sleep(10 * time.Millisecond) // lets the deadlines and the sleeping handlers fire together
+		rn.quiesceServer("deadline-race")
+		out.counters["deadline_race_streams"] += int64(races)
+	}
 	for _, st := range sc.Steps {
 		label := string(st.K)
 		switch st.K {
